@@ -18,6 +18,11 @@ RULE = (
     "table.serialize() and every other returned object byte-identical, (d) reads outside the populated area return empty "
     "objects, raise nothing, do not grow the table. Non-trivial = addressed item inside a repeated run or outside the "
     "populated area, with a mutation applied; distinct by (spec, pre-ops, getter, coordinates, mutation)."
+    ' Also: filtered getters (get_column_cells / get_cells / get_rows+Row.get_cells with content, cell_type, style filters '
+    "incl. patterns matching the empty string: survivors stamped, inside the area, holding the grid's value, in order); Row"
+    '.* getters compare the row the cell was read from (copied or stored); generators consumed lazily with a mutation betwe'
+    'en two items (traverse, traverse_columns, Row.traverse); value-level getters (get_values, iter_values): shape, None pa'
+    "dding clipped to the table, content, and every returned line the caller's own list."
 )
 ASSUMPTIONS = [
     "detachment (c) is demanded only where the docstring promises a copy: Table.traverse, get_row, get_cell(clone=True), "
